@@ -18,12 +18,20 @@ use std::time::Instant;
 pub const WORKER_STACK: usize = 64 << 20;
 const MAX_SLOTS: usize = 64;
 const HANG_WALL_MS: u64 = 240_000;
-const CHILD_CPU_SECS: u64 = 60;
+const CHILD_CPU_SECS: u64 = 20;
 
 static DIR: OnceLock<Option<String>> = OnceLock::new();
 static NEXT_SLOT: AtomicUsize = AtomicUsize::new(0);
 static START: OnceLock<Instant> = OnceLock::new();
 static BUSY_SINCE: [AtomicU64; MAX_SLOTS] = [const { AtomicU64::new(0) }; MAX_SLOTS];
+static HANG_MS: AtomicU64 = AtomicU64::new(HANG_WALL_MS);
+
+/// Properties whose cases are all cheap (C10, C11) lower the hang threshold.
+pub fn set_hang_ms(ms: u64) {
+    if std::env::var("VERIF_HANG_MS").is_err() {
+        HANG_MS.store(ms, Ordering::Relaxed);
+    }
+}
 
 fn dir() -> Option<&'static String> {
     DIR.get_or_init(|| std::env::var("VERIF_JOURNAL_DIR").ok()).as_ref()
@@ -75,13 +83,15 @@ pub fn start_watchdog() {
         return;
     }
     let _ = now_ms();
-    let hang_ms: u64 = std::env::var("VERIF_HANG_MS").ok().and_then(|s| s.parse().ok()).unwrap_or(HANG_WALL_MS);
+    if let Some(ms) = std::env::var("VERIF_HANG_MS").ok().and_then(|s| s.parse().ok()) {
+        HANG_MS.store(ms, Ordering::Relaxed);
+    }
     std::thread::spawn(move || loop {
         std::thread::sleep(std::time::Duration::from_millis(500));
         let now = now_ms();
         for s in BUSY_SINCE.iter() {
             let t = s.load(Ordering::Relaxed);
-            if t != 0 && now.saturating_sub(t) > hang_ms {
+            if t != 0 && now.saturating_sub(t) > HANG_MS.load(Ordering::Relaxed) {
                 std::process::exit(97);
             }
         }
@@ -143,34 +153,43 @@ pub fn supervise(prop: &str, args: &[String], tier: &str, seed: u64) -> i32 {
     emit(&format!("  [{}] checking process {}; re-running in-flight cases in isolation", prop, how));
     let inflight = read_journals(&d);
     let _ = std::fs::remove_dir_all(&d);
-    let mut violations = vec![];
-    for f in &inflight {
-        let cases: Vec<Vec<u32>> = if f.kind == 0 {
-            vec![f.words.clone()]
-        } else if f.words.len() == 4 {
-            let s = ((f.words[0] as u64) << 32) | f.words[1] as u64;
-            let e = ((f.words[2] as u64) << 32) | f.words[3] as u64;
-            (s..e).map(|i| vec![(i >> 32) as u32, i as u32]).collect()
-        } else {
-            vec![]
-        };
-        let outcomes = run_batch(prop, &f.sub, &cases, CHILD_CPU_SECS, (WORKER_STACK / 1024) as u64);
-        for (c, o) in cases.iter().zip(outcomes.iter()) {
-            let msg = match o {
-                ChildOutcome::Died(m) => format!("the call did not return: process {} (stack overflow / abort)", m),
-                ChildOutcome::CpuLimit => format!("the call did not return within {} s of CPU time (loop?)", CHILD_CPU_SECS),
-                ChildOutcome::Fail(m) => m.clone(),
-                _ => continue,
-            };
-            let dirp = format!("{}/replay/{}", VERIF_ROOT, prop);
-            let _ = std::fs::create_dir_all(&dirp);
-            let path = format!("{}/fail-{}-{:016x}.json", dirp, f.sub, hash_of(&(f.sub.as_str(), c)));
-            let doc = serde_json::json!({"property": prop, "sub": f.sub, "choices": c, "message": msg, "seed": seed, "tier": tier});
-            let _ = std::fs::write(&path, serde_json::to_string_pretty(&doc).unwrap());
-            violations.push((path, msg));
-            break;
+    // every in-flight case (or enumeration block) is re-run alone, all of them in parallel
+    let results: std::sync::Mutex<Vec<(String, String)>> = std::sync::Mutex::new(vec![]);
+    std::thread::scope(|sc| {
+        for f in &inflight {
+            let results = &results;
+            sc.spawn(move || {
+                let cases: Vec<Vec<u32>> = if f.kind == 0 {
+                    vec![f.words.clone()]
+                } else if f.words.len() == 4 {
+                    let s = ((f.words[0] as u64) << 32) | f.words[1] as u64;
+                    let e = ((f.words[2] as u64) << 32) | f.words[3] as u64;
+                    (s..e).map(|i| vec![(i >> 32) as u32, i as u32]).collect()
+                } else {
+                    vec![]
+                };
+                let outcomes = run_batch(prop, &f.sub, &cases, CHILD_CPU_SECS, (WORKER_STACK / 1024) as u64);
+                for (c, o) in cases.iter().zip(outcomes.iter()) {
+                    let msg = match o {
+                        ChildOutcome::Died(m) => format!("the call did not return: process {} (stack overflow / abort)", m),
+                        ChildOutcome::CpuLimit => format!("the call did not return within {} s of CPU time (loop?)", CHILD_CPU_SECS),
+                        ChildOutcome::Fail(m) => m.clone(),
+                        _ => continue,
+                    };
+                    let dirp = format!("{}/replay/{}", VERIF_ROOT, prop);
+                    let _ = std::fs::create_dir_all(&dirp);
+                    let path = format!("{}/fail-{}-{:016x}.json", dirp, f.sub, hash_of(&(f.sub.as_str(), c)));
+                    let doc = serde_json::json!({"property": prop, "sub": f.sub, "choices": c, "message": msg, "seed": seed, "tier": tier});
+                    let _ = std::fs::write(&path, serde_json::to_string_pretty(&doc).unwrap());
+                    results.lock().unwrap().push((path, msg));
+                    break;
+                }
+            });
         }
-    }
+    });
+    let mut violations = results.into_inner().unwrap();
+    violations.sort();
+    violations.truncate(3);
     let ev = serde_json::json!({
         "property_id": prop, "tier": tier, "seed": seed, "level": "exploration",
         "coverage": {"evaluations": inflight.len().max(1), "distinct_nontrivial": 0, "rule": "checking process died; in-flight cases re-run in isolation",
